@@ -352,6 +352,7 @@ func c11adjOptions(dims []string, vals []string, skips []any) []c11adj {
 }
 
 func c11run(w *report.W) {
+	seamconfReport(w)
 	lists := [][]string{{}, {"a"}, {"b"}, {"a", "b"}}
 	skips := []any{nil, false, true, "reason"}
 	type scope struct {
